@@ -2386,6 +2386,10 @@ LOOP:
 						},
 					}
 					x.rget(ft, path2, pv, defaultOmitEmpty)
+					// etypes holds the types on the current embedding path only: an embedded
+					// type reached again by another route must still have its fields seen
+					// (a shallower occurrence wins), while a type that embeds itself is cut.
+					pv.etypes = pv.etypes[:len(pv.etypes)-1]
 				}
 				continue
 			}
